@@ -51,13 +51,18 @@ func NewKeyFromClaim(claim *v1.PersistentVolumeClaim) Key {
 }
 
 func NewStorageClaimInfo(claim *v1.PersistentVolumeClaim, podOwner *PodOwnerReference) *StorageClaimInfo {
+	// a claim may have no storage class (statically provisioned volume, no default class)
+	storageClass := common_info.StorageClassID("")
+	if claim.Spec.StorageClassName != nil {
+		storageClass = common_info.StorageClassID(*claim.Spec.StorageClassName)
+	}
 	return &StorageClaimInfo{
 		Key:               NewKeyFromClaim(claim),
 		Name:              claim.Name,
 		Namespace:         claim.Namespace,
 		Size:              claim.Spec.Resources.Requests.Storage(),
 		Phase:             claim.Status.Phase,
-		StorageClass:      common_info.StorageClassID(*claim.Spec.StorageClassName),
+		StorageClass:      storageClass,
 		PodOwnerReference: podOwner,
 		DeletedOwner:      podOwner != nil,
 	}
